@@ -356,6 +356,16 @@ class ScriptedPeer(object):
             except Exception:
                 pass
 
+    def abort_all(self):
+        """watchdog: also stops listening, so that a client blocked in connect() is released"""
+        self.abort()
+        lst = self.listener
+        if lst is not None:
+            try:
+                lst.close()
+            except Exception:
+                pass
+
     def stop(self):
         with self.cv:
             self.stopping = True
